@@ -43,6 +43,21 @@ best = ["C"]
 units = [ { names = ["celsius"], symbols = ["C"], ratio = 1, difference = 273.15 } ]
 "#;
 
+/// a converter whose time units have no key `min` / `minute` / `minutes` / `m` (there `m` is the metre):
+/// the unit-based duration reader has no minutes unit to convert to, so number-unit durations are outside
+/// what it documents; lengths in particular must never be read as durations
+static NOMIN: LazyLock<Converter> = LazyLock::new(|| {
+    let text = SPANISH_UNITS
+        .replace("symbols = [\"min\"]", "symbols = [\"mto\"]")
+        .replace("best = [\"s\", \"min\", \"h\", \"d\"]", "best = [\"s\", \"mto\", \"h\", \"d\"]")
+        .replace("units = [ { names = [\"metro\"], symbols = [\"m\"], ratio = 1 } ]", "units = [ { names = [\"metro\"], symbols = [\"m\"], ratio = 1 }, { names = [\"kilometro\"], symbols = [\"km\"], ratio = 1000 }, { names = [\"centimetro\"], symbols = [\"cm\"], ratio = 0.01 } ]");
+    assert!(text.contains("mto") && text.contains("kilometro"), "NOMIN units text");
+    let f: UnitsFile = toml::from_str(&text).expect("nomin units toml");
+    let c = ConverterBuilder::new().with_units_file(f).expect("add").finish().expect("finish");
+    assert!(c.find_unit("min").is_none() && c.find_unit("minute").is_none() && c.find_unit("minutes").is_none());
+    c
+});
+
 static SPANISH: LazyLock<Converter> = LazyLock::new(|| {
     let f: UnitsFile = toml::from_str(SPANISH_UNITS).expect("spanish units toml");
     ConverterBuilder::new().with_units_file(f).expect("add").finish().expect("finish")
@@ -53,7 +68,10 @@ fn time_units(conv: u8) -> &'static [(&'static str, u64)] {
     match conv {
         0 => &[("s", 1), ("sec", 1), ("secs", 1), ("second", 1), ("seconds", 1), ("m", 60), ("min", 60), ("minute", 60), ("minutes", 60), ("h", 3600), ("hour", 3600), ("hours", 3600), ("d", 86400), ("day", 86400), ("days", 86400)],
         1 => &[("s", 1), ("sec", 1), ("secs", 1), ("second", 1), ("seconds", 1), ("min", 60), ("mins", 60), ("minute", 60), ("minutes", 60), ("h", 3600), ("hour", 3600), ("hours", 3600), ("d", 86400), ("day", 86400), ("days", 86400)],
-        _ => &[("s", 1), ("segundo", 1), ("segundos", 1), ("min", 60), ("minuto", 60), ("minutos", 60), ("h", 3600), ("hora", 3600), ("horas", 3600), ("d", 86400), ("día", 86400), ("días", 86400)],
+        2 => &[("s", 1), ("segundo", 1), ("segundos", 1), ("min", 60), ("minuto", 60), ("minutos", 60), ("h", 3600), ("hora", 3600), ("horas", 3600), ("d", 86400), ("día", 86400), ("días", 86400)],
+        // converter without a minutes unit: the pairs are written in its length units and must be refused
+        // (`m` itself is left out: `5m` is the documented compact form)
+        _ => &[("km", 0), ("cm", 0), ("metro", 0), ("kilometro", 0), ("centimetro", 0)],
     }
 }
 
@@ -61,15 +79,17 @@ fn conv_of(c: u8) -> &'static Converter {
     match c {
         0 => &EMPTY,
         1 => &BUNDLED,
-        _ => &SPANISH,
+        2 => &SPANISH,
+        _ => &NOMIN,
     }
 }
 
-static PARSERS: LazyLock<[CooklangParser; 3]> = LazyLock::new(|| {
+static PARSERS: LazyLock<[CooklangParser; 4]> = LazyLock::new(|| {
     [
         CooklangParser::new(Extensions::all(), EMPTY.clone()),
         CooklangParser::new(Extensions::all(), BUNDLED.clone()),
         CooklangParser::new(Extensions::all(), SPANISH.clone()),
+        CooklangParser::new(Extensions::all(), NOMIN.clone()),
     ]
 });
 
@@ -115,7 +135,7 @@ enum Expect {
 }
 
 const SERVING_WORDS: &[&str] = &["", " servings", " cups worth", " big", " small ones", "-ish"];
-const TAG_POOL: &[&str] = &["vegan", "quick", "", "2022", "gluten free", "vegan", " spicy ", "a"];
+const TAG_POOL: &[&str] = &["vegan", "quick", "", "2022", "gluten free", "vegan", " spicy ", "a", "\u{a0}soup\u{a0}", "\u{3000}", "\u{2003}tea", " soup\u{a0}", "\u{2009}"];
 const BAD_TIMES: &[&str] = &["soon", "1hour30min", "5 parsecs", "-5", "inf", "nan", "1e20", "4294967296", "99999999h", "1h4294967295m", "71582789h", "1 h 4294967295 min", "h", "10 min 5", "1.5.2 h", "1h30", "٣ h", "1h -30min", "+5 min", "2 hours -30 min", "-1 min 2 min", "1 h +5 min", "1e2 min", "0x10 min"];
 const BAD_SERVINGS: &[&str] = &["many", "2|2", "1|2|1", "x2", "-3", "4294967296", "|", "3 | many"];
 const LOCALES: &[&str] = &["en", "es_ES", "en_gb", "DE", "pt_BR"];
@@ -137,7 +157,7 @@ fn render(c: &Case) -> (String, Option<String>, Expect, &'static [&'static str])
     const TAG_KEYS: &[&str] = &["tags", "tag"];
     const WHO_KEYS: &[&str] = &["author", "source"];
     const LOC_KEYS: &[&str] = &["locale"];
-    let units = time_units(c.conv);
+    let units = time_units(c.conv % 4);
     match &c.spec {
         Spec::Minutes { milli, as_string } => {
             let txt = fmt_milli(*milli);
@@ -170,7 +190,8 @@ fn render(c: &Case) -> (String, Option<String>, Expect, &'static [&'static str])
                 exact += *milli as u128 * secs as u128; // milli-seconds ... = 1/60000 min
             }
             let s = parts.join(" ");
-            (yaml_quote(&s), Some(s), Expect::Minutes(Some(exact)), TIME_KEYS)
+            let e = if c.conv % 4 == 3 { None } else { Some(exact) };
+            (yaml_quote(&s), Some(s), Expect::Minutes(e), TIME_KEYS)
         }
         Spec::BadTime(i) => {
             let s = BAD_TIMES[*i as usize % BAD_TIMES.len()];
@@ -280,8 +301,8 @@ pub fn oracle(c: &Case, st: &mut Stats) -> Verdict {
         st.exclude("empty `>>` value");
         return Ok(());
     }
-    let conv = conv_of(c.conv % 3);
-    let p = &PARSERS[(c.conv % 3) as usize];
+    let conv = conv_of(c.conv % 4);
+    let p = &PARSERS[(c.conv % 4) as usize];
     let res = match guard(|| p.parse(&src)) {
         Ok(r) => r,
         Err(e) => vbail!("c13.panic.parse", "parse panicked: {e}; source {src:?}"),
@@ -301,9 +322,9 @@ pub fn oracle(c: &Case, st: &mut Stats) -> Verdict {
         Spec::NameUrl(_) | Spec::BadNameUrl(_) => "author/source",
         _ => "locale",
     });
-    st.class(["empty converter", "bundled converter", "renamed-units converter"][(c.conv % 3) as usize]);
+    st.class(["empty converter", "bundled converter", "renamed-units converter", "converter without a minutes unit"][(c.conv % 4) as usize]);
     st.class(if old_style { "`>>` entry" } else { "front matter" });
-    st.nontrivial(&(src.as_str(), c.conv % 3));
+    st.nontrivial(&(src.as_str(), c.conv % 4));
 
     macro_rules! agree {
         ($got:expr, $what:expr) => {
@@ -313,7 +334,7 @@ pub fn oracle(c: &Case, st: &mut Stats) -> Verdict {
                 "{}: the parser gave {unsupported} unsupported-value warning(s) but the accessor returned {:?}; converter {}; source {src:?}",
                 $what,
                 $got,
-                c.conv % 3
+                c.conv % 4
             );
         };
     }
@@ -336,14 +357,14 @@ pub fn oracle(c: &Case, st: &mut Stats) -> Verdict {
             match e {
                 Some(exact) if exact <= (u32::MAX as u128) * 60000 + 29999 => {
                     let Some(g) = got else {
-                        vbail!("c13.documented-form-refused", "documented duration refused (converter {}); source {src:?}", c.conv % 3);
+                        vbail!("c13.documented-form-refused", "documented duration refused (converter {}); source {src:?}", c.conv % 4);
                     };
                     vensure!(
                         minutes_ok(g, exact),
                         "c13.wrong-minutes",
                         "duration reads as {g} minutes, exact value {} minutes (converter {}); source {src:?}",
                         exact as f64 / 60000.0,
-                        c.conv % 3
+                        c.conv % 4
                     );
                 }
                 Some(exact) => {
@@ -455,8 +476,8 @@ pub fn run(tier: Tier) -> i32 {
         run_prop(
             &mut run,
             "values",
-            "one standard key (time, prep time, cook time, servings, tags, author, source, locale and their aliases) with a generated value of a documented form (minutes, HhMm, 1-3 number-unit pairs in the converter's time units up to 2^33 hours, servings numbers/strings/lists, tag strings/lists, the documented name/URL forms, locales) or an undocumented one, written as `>>` entry or YAML, under the empty, bundled and a renamed-units converter; oracle: exact rational minutes, documented reading tables, and `warning <=> accessor returns None`; distinct = distinct (source, converter)",
-            || (spec(), any::<u8>(), any::<bool>(), 0u8..3).prop_map(|(spec, key_variant, old_style, conv)| Case { spec, key_variant, old_style, conv }),
+            "one standard key (time, prep time, cook time, servings, tags, author, source, locale and their aliases) with a generated value of a documented form (minutes, HhMm, 1-3 number-unit pairs in the converter's time units up to 2^33 hours, servings numbers/strings/lists, tag strings/lists, the documented name/URL forms, locales) or an undocumented one, written as `>>` entry or YAML, under the empty, bundled, a renamed-units converter and a converter without a minutes unit (where number-unit pairs are written in length units and must be refused); oracle: exact rational minutes, documented reading tables, and `warning <=> accessor returns None`; distinct = distinct (source, converter)",
+            || (spec(), any::<u8>(), any::<bool>(), 0u8..4).prop_map(|(spec, key_variant, old_style, conv)| Case { spec, key_variant, old_style, conv }),
             tier.pick(120_000, 6_000_000),
             |c: &Case, st| {
                 st.sample(|| json!({"case": format!("{c:?}")}));
